@@ -142,6 +142,8 @@ def _run_case(ctx, case, rng):
             sig = ("C14", case["base"], tuple(sorted(sp.items())), name)
             try:
                 r = fn()
+                if case.get("shuffle_seed", 0) % 2:
+                    r = fn()             # applied a second time to the same base: same result
             except Exception as ex:  # noqa
                 ctx.judge(False, case, sig, "C14:apply", obs.show(want), repr(ex), name,
                           nontrivial=bool(sp))
